@@ -122,6 +122,7 @@ class Reducer:
         self.max_terms = max_terms
         self.n_product_lemmas = 0
         self._shifts = None
+        self.int_vars = {}
         for v in list(self.rules_z3):
             self.zvars[v] = z3.Real(v)
         for v, rhs in self.rules_z3.items():
@@ -246,7 +247,10 @@ class Reducer:
         if k == z3.Z3_OP_TO_REAL:
             if z3.is_int_value(ch[0]):
                 return p_const(ch[0].as_long())
-            self.zvars.setdefault(str(ch[0]), t)
+            # in the (constraint-free) lemmas an integer variable is generalised to a real one: an identity that holds
+            # for every real value holds for every integer value
+            self.zvars.setdefault(str(ch[0]), z3.Real(str(ch[0]) + "_asreal"))
+            self.int_vars[str(ch[0])] = ch[0]
             return p_var(str(ch[0]))
         if k == z3.Z3_OP_ADD:
             r = {}
